@@ -69,6 +69,17 @@ Theorem C12_later_match_does_not_count : forall s : text,
   extract_reference the_params s = None.
 Proof. exact later_match_not_reference. Qed.
 
+(* The position the documented regex reports is the LEFTMOST one (the model's search, like
+   Regex::captures, tries every start position in order -- proved for every regex of the modelled
+   fragment): no start position j before the reported one has a match. *)
+Theorem C12_documented_regex_leftmost : forall (s : text) (c : caps) (i e j : N),
+  captures re_documented s = Some c -> get_cap c 0 = Some (i, e) -> j < i ->
+  m re_documented (fun st => Some (set_cap (rcaps st) 0 (j, ridx st))) (mkR (skipn_N j s) j []) = None.
+Proof.
+  intros s c i e j Hc Hg Hj. rewrite <- (N.sub_0_r j) at 1.
+  exact (search_from_leftmost re_documented s 0 c i e j Hc Hg (conj (N.le_0_l j) Hj)).
+Qed.
+
 (* decimal printing and u32 parsing are inverse on the whole ID range *)
 Theorem C12_dec_parse : forall n : N, n <= 4294967295 -> parse_u32 (dec n) = Some n.
 Proof. exact parse_u32_dec. Qed.
